@@ -12,7 +12,7 @@ MODELS = ["cryptography: ideal model tlv/stubs/cryptography (UF hashes/HMAC/HKDF
           "key log: keylog_reader.Key objects with symbolic hex fields (parsing of the text is C09's subject)"]
 ASSUMPTIONS = ["distinct AEAD encryptions give distinct ciphertexts; a ciphertext decrypts only under the key, nonce and AAD it was made with",
                "MAC bytes are opaque (TLExport strips but never verifies them)",
-               "one TLS record per TCP segment except in the -segmented configurations (every record cut into 11-byte segments); arbitrary "
+               "one TLS record per TCP segment except in the -segmented configurations (each direction's byte stream cut into 11-byte segments without regard to record boundaries); arbitrary "
                "segmentation, duplication and reordering are C05's subject",
                "not claimed: compression, renegotiation, KeyUpdate/0-RTT/HRR, data after an alert, 4-tuple reuse"]
 
@@ -96,7 +96,7 @@ def configs(tier, seed):
             continue
         seen.add(k)
         cc = dict(c)
-        cc.update(name=c["name"] + "-segmented", seg_size=11, records=2, min_len=1, max_len=3)
+        cc.update(name=c["name"] + "-segmented", seg_size=11, records=2, min_len=1, max_len=3, stream_segments=True)
         out.append(cc)
     # ---- one record from an arbitrary cipher state, one configuration per behaviour class
     for cls, members in sorted(by_class.items()):
@@ -126,7 +126,7 @@ def scenario_outputs(cfg, mods, src):
     from tlv.oracle import scenario as SC
     items, keylog, meta = SC.build(cfg, src)
     ep = P.Endpoint(ipv=cfg.get("ipv", 4))
-    frames = P.tcp_frames(ep, items, seg_size=cfg.get("seg_size"))
+    frames = P.tcp_frames(ep, items, seg_size=cfg.get("seg_size"), group=P.stream_groups(items) if cfg.get("stream_segments") else None)
     out, sessions = P.run_tls(mods, frames, P.keylog_objects(mods, keylog), exp_meta=cfg.get("exp_meta", False))
     return items, out, ep, sessions
 
@@ -269,7 +269,7 @@ def concrete(cfg, inp, args=()):
     src = SC.ConcreteSrc(inp)
     items, keylog, meta = SC.build(cfg, src)
     ep = P.Endpoint(ipv=cfg.get("ipv", 4))
-    pk = e2e.concrete_frames(ep, items, seg_size=cfg.get("seg_size"))
+    pk = e2e.concrete_frames(ep, items, seg_size=cfg.get("seg_size"), group=P.stream_groups(items) if cfg.get("stream_segments") else None)
     res = e2e.run_tlexport(pk, e2e.keylog_text(keylog), args=args)
     problems = list(res["problems"])
     conv, convs = e2e.streams_of(res, ep)
